@@ -12,10 +12,10 @@ git -C /repo worktree add -q --detach $wt HEAD || exit 3
 trap 'git -C /repo worktree remove --force '$wt' >/dev/null 2>&1' EXIT
 cd $wt
 cp $src/demo_test.go $pkg/zz_seed_demo_test.go
-go test -vet=off -count=1 -run "$rx" ./$pkg/ > /tmp/cs-$id.clean.log 2>&1; rc_clean=$?
+go test -vet=off -count=1 ${SEED_TAGS:+-tags $SEED_TAGS} -run "$rx" ./$pkg/ > /tmp/cs-$id.clean.log 2>&1; rc_clean=$?
 git apply $src/patch.diff || { echo "RESULT $id patch-does-not-apply"; exit 3; }
 go build ./... > /tmp/cs-$id.build.log 2>&1; rc_build=$?
-go test -vet=off -count=1 -run "$rx" ./$pkg/ > /tmp/cs-$id.mut.log 2>&1; rc_mut=$?
+go test -vet=off -count=1 ${SEED_TAGS:+-tags $SEED_TAGS} -run "$rx" ./$pkg/ > /tmp/cs-$id.mut.log 2>&1; rc_mut=$?
 rm -f $pkg/zz_seed_demo_test.go
 go test -vet=off -count=1 -json -p 6 -timeout 20m ./$pkg/... $extra > /tmp/cs-$id.suite.json 2>/dev/null
 broken=$(python3 - /tmp/cs-$id.suite.json <<'PY'
